@@ -188,8 +188,13 @@ impl Repl {
                     let name = second_of_alist(prog0.clone())?;
                     let built_program = program_with_helper(vec![name], prog0);
                     let program = frontend(self.opts.clone(), &[built_program])?;
-                    self.evaluator
-                        .add_helper(&program.helpers[program.helpers.len() - 1]);
+                    let Some(helper) = program.helpers.last() else {
+                        return Err(CompileErr(
+                            parsed_program[0].loc(),
+                            "form does not define a helper".to_string(),
+                        ));
+                    };
+                    self.evaluator.add_helper(helper);
                     Ok(Some(Rc::new(BodyForm::Quoted(SExp::Nil(self.loc.clone())))))
                 } else {
                     frontend(self.opts.clone(), &parsed_program)
